@@ -12,7 +12,11 @@ func init() {
 	vpRegister("VPH_C16_update_between_calls", VPH_C16_update_between_calls)
 }
 
-func VPH_C16_update_between_calls() {
+func VPH_C16_update_between_calls() { vpUpdateBetweenCalls([]int{0, 1, 2, 3}) }
+
+// vpUpdateBetweenCalls: kinds lists the policy changes to choose from (0 read-only on, 1 client
+// removed from the allow-list, 2 secure-port rule on, 3 rate limiting on); C09 uses 1 and 2.
+func vpUpdateBetweenCalls(kinds []int) {
 	fs := vpStdTree()
 	fs.addAbsent("/d/n1")
 	fs.addAbsent("/d/n2")
@@ -30,7 +34,7 @@ func VPH_C16_update_between_calls() {
 		cut = append(cut, len(in))
 		in = append(in, vpClientCall(uint32(300+k), NFS_PROGRAM, NFS_V3, NFSPROC3_MKDIR, a.Bytes())...)
 	}
-	what := vpChoose("update", 0, 3)
+	what := kinds[vpChoose("update", 0, len(kinds)-1)]
 	conn := &vpConn{in: in, remote: "10.0.0.5:" + []string{"700", "2000"}[vpChoose("port-class", 0, 1)]}
 	highPort := conn.remote == "10.0.0.5:2000"
 	// the update happens when the server turns to the second call: the first one has been answered
